@@ -8,20 +8,30 @@ Close Scope N_scope.
 (* Full statement over the model: for every program (finite or not), every
    readiness of its channels, every choice of select among ready cases and
    every delay d of the watcher goroutine, once the context is cancelled Run
-   returns within d + 2 iterations of the instruction loop, and a run that ends
-   before the cancellation returns the code's own outcome. *)
+   returns within d + 2 iterations of the instruction loop; what it returns
+   once env.done has been seen set is the error of the context - in every
+   phase, also while the deferred calls started by a panic that is not
+   recovered are running (cpending: vm.panic is not nil) - and a blocked
+   instruction returns it as soon as the context is cancelled; a run that ends
+   before the cancellation returns the code's own outcome (nil, the pending
+   PanicError, the value of a Stop or Fatal). *)
 Definition C11_statement : Prop :=
   (forall orc d s, cancelled orc s = true ->
      (exists k, k < d /\ o_watcher orc (clock s + k) = true) ->
      exists r, crun true orc (S (S d)) s = Some r) /\
+  (forall orc n s r, cdone s = true -> crun true orc n s = Some r -> r = RCtxErr) /\
+  (forall orc s b, o_prog orc (cpc s) = KBlock b -> o_ready orc (clock s) = false ->
+     cancelled orc s = true -> cstep true orc s = CRet RCtxErr) /\
   (forall hc orc n s r, cdone s = false ->
      (forall t, t < clock s + n -> cancelled_at orc t = false) ->
-     crun hc orc n s = Some r -> exists o, r = ROwn o).
+     crun hc orc n s = Some r -> own r).
 
 Theorem C11_holds : C11_statement.
 Proof.
-  split.
+  split; [|split; [|split]].
   - exact (cancel_bounded_watcher_all).
+  - exact flag_set_returns_ctx.
+  - exact (fun orc s b => blocked_cancel_returns_ctx orc s b all_guarded).
   - exact finish_first_wins.
 Qed.
 Print Assumptions C11_holds.
@@ -54,9 +64,30 @@ Print Assumptions C11_cancel_bounded_mid.
 Theorem C11_finish_first_wins :
   forall hc orc n s r, cdone s = false ->
   (forall t, t < clock s + n -> cancelled_at orc t = false) ->
-  crun hc orc n s = Some r -> exists o, r = ROwn o.
+  crun hc orc n s = Some r -> own r.
 Proof. exact finish_first_wins. Qed.
 Print Assumptions C11_finish_first_wins.
+
+(* the final statements of runFunc, as regenerated from run.go: with a context
+   and env.done set the error of the context is returned even when a panic is
+   pending; otherwise the pending PanicError, or nil *)
+Theorem C11_tail_ctx_first :
+  (forall pending, runfunc_tail true true pending = 1%N) /\
+  (forall has_ctx pending, runfunc_tail has_ctx false pending = (if pending then 2%N else 0%N)) /\
+  (forall done pending, runfunc_tail false done pending = (if pending then 2%N else 0%N)).
+Proof. exact (conj tail_ctx_first (conj tail_own tail_no_ctx)). Qed.
+
+(* cancellation while a deferred function started by an unrecovered panic is
+   blocked (receive, select) or loops: the context error, not the PanicError;
+   without cancellation the PanicError *)
+Theorem C11_cancel_in_deferred_after_panic :
+  scenario5 0 false false 2 1 = 2%N /\ scenario5 2 false false 2 1 = 2%N /\
+  scenario5 0 true false 2 1 = 2%N /\ scenario5 0 false true 1 1 = 3%N /\ scenario5 0 false true 0 1 = 3%N.
+Proof. exact cancel_in_deferred_after_panic. Qed.
+
+Theorem C11_pending_panic_not_returned_after_flag :
+  forall orc s, cdone s = true -> crun true orc 1 s <> Some RPanicErr.
+Proof. exact pending_panic_not_returned_after_flag. Qed.
 
 (* why the side condition matters: an unguarded blocking site never returns *)
 Theorem C11_unguarded_blocks_forever :
